@@ -35,8 +35,11 @@ func (l Lit) String() string {
 }
 
 type Event struct {
-	Kind  string // "call", "store"
-	Name  string // callee key / field name
+	Kind  string   // "call", "defer", "store"
+	Name  string   // callee key / field name
+	Val   string   // store: term of the stored value as resolved on the path
+	Base  string   // store: term of the struct the field belongs to
+	Args  []string // call: terms of the arguments
 	Instr ssa.Instruction
 }
 
@@ -172,10 +175,30 @@ func (t *Termer) Term(v ssa.Value, ps *pathState) string {
 			}
 			return b.Name() + "(" + strings.Join(args, ",") + ")"
 		}
-		return "call:" + calleeName(t.P, x)
+		name := calleeName(t.P, x)
+		ord := 0
+		for _, cs := range callsIn(x.Parent()) {
+			if c2, ok := cs.(*ssa.Call); ok && calleeName(t.P, c2) == name {
+				ord++
+				if c2 == x {
+					break
+				}
+			}
+		}
+		if ord > 1 {
+			return fmt.Sprintf("call:%s@%d", name, ord)
+		}
+		return "call:" + name
+	case *ssa.MakeSlice:
+		return "make[" + t.Term(x.Len, ps) + "]"
 	case *ssa.TypeAssert:
 		return "assert(" + t.Term(x.X, ps) + "," + types.TypeString(x.AssertedType, shortQual) + ")"
 	case *ssa.BinOp:
+		if ps != nil {
+			if n, ok := evalInt(x, ps); ok {
+				return fmt.Sprintf("const:%d", n)
+			}
+		}
 		return "(" + t.Term(x.X, ps) + x.Op.String() + t.Term(x.Y, ps) + ")"
 	case *ssa.Slice:
 		lo, hi := "", ""
@@ -229,6 +252,14 @@ func (t *Termer) litOf(cond ssa.Value, outcome bool, ps *pathState) (Lit, bool) 
 				X, Y = Y, X
 				cy, oky = cx, true
 				op = swapOp[op]
+			}
+			if !oky {
+				if n, ok := evalInt(Y, ps); ok {
+					return Lit{Subject: t.Term(X, ps), Op: op, C: fmt.Sprint(n), Val: outcome, IsInt: true, N: n, Cond: cond}, true
+				}
+				if n, ok := evalInt(X, ps); ok {
+					return Lit{Subject: t.Term(Y, ps), Op: swapOp[op], C: fmt.Sprint(n), Val: outcome, IsInt: true, N: n, Cond: cond}, true
+				}
 			}
 			if oky {
 				l := Lit{Subject: t.Term(X, ps), Op: op, C: constString2(cy), Val: outcome, Cond: cond}
@@ -421,13 +452,13 @@ func EnumLits(start *ssa.BasicBlock, idx int, o TabOpts) ([]*LPath, bool) {
 			cond = iff.Cond
 		}
 		for k, s := range b.Succs {
-			onPath := false
+			visits := 0
 			for _, pb := range ps.Path {
 				if pb == s {
-					onPath = true
+					visits++
 				}
 			}
-			if onPath {
+			if visits >= 2 {
 				continue
 			}
 			nfr := fr
@@ -436,6 +467,10 @@ func EnumLits(start *ssa.BasicBlock, idx int, o TabOpts) ([]*LPath, bool) {
 				rc := ps.Resolve(cond)
 				if cb, ok := constBool(rc); ok {
 					if cb != outcome {
+						continue
+					}
+				} else if fb, ok := foldCond(rc, ps); ok {
+					if fb != outcome {
 						continue
 					}
 				} else if l, ok := o.Termer.litOf(cond, outcome, ps); ok {
@@ -449,15 +484,26 @@ func EnumLits(start *ssa.BasicBlock, idx int, o TabOpts) ([]*LPath, bool) {
 					nfr.unknown = append(append([]string(nil), fr.unknown...), fmt.Sprintf("%s=%v", o.Termer.Term(cond, ps), outcome))
 				}
 			}
-			walk(s, 0, ps.clone(), nfr)
+			nps := ps.clone()
+			if visits == 1 {
+				// second arrival at a loop header through a back-edge: its phis (and those of blocks inside the
+				// loop that are revisited) stand for an arbitrary later iteration
+				if nps.Havoc == nil {
+					nps.Havoc = map[*ssa.BasicBlock]bool{}
+				}
+				nps.Havoc[s] = true
+			}
+			walk(s, 0, nps, nfr)
 		}
 	}
 	walk(start, idx, &pathState{Cells: map[*ssa.Alloc]ssa.Value{}}, frame{})
 	return out, !overflow
 }
 
-// callEvents is the usual EventOf: static/interface/func-value calls by name, and stores to named fields.
+// callEvents is the usual EventOf: static/interface/func-value calls by name (with argument terms), and stores to
+// named fields (with the stored value's term).
 func callEvents(p *Program) func(in ssa.Instruction, ps *pathState) (Event, bool) {
+	t := &Termer{P: p}
 	return func(in ssa.Instruction, ps *pathState) (Event, bool) {
 		switch x := in.(type) {
 		case ssa.CallInstruction:
@@ -468,10 +514,17 @@ func callEvents(p *Program) func(in ssa.Instruction, ps *pathState) (Event, bool
 			if _, ok := x.(*ssa.Defer); ok {
 				kind = "defer"
 			}
-			return Event{Kind: kind, Name: calleeName(p, x)}, true
+			ev := Event{Kind: kind, Name: calleeName(p, x)}
+			if x.Common().IsInvoke() {
+				ev.Args = append(ev.Args, t.Term(x.Common().Value, ps))
+			}
+			for _, a := range x.Common().Args {
+				ev.Args = append(ev.Args, t.Term(a, ps))
+			}
+			return ev, true
 		case *ssa.Store:
-			if f := fieldName(x.Addr); f != "" {
-				return Event{Kind: "store", Name: f}, true
+			if fa, ok := x.Addr.(*ssa.FieldAddr); ok {
+				return Event{Kind: "store", Name: fieldName(fa), Val: t.Term(x.Val, ps), Base: t.Term(fa.X, ps)}, true
 			}
 		}
 		return Event{}, false
@@ -486,3 +539,61 @@ func sortedStrings(m map[string]bool) []string {
 	sort.Strings(s)
 	return s
 }
+
+// evalInt evaluates an integer expression of constants along the path (phis and cells resolved by the path).
+func evalInt(v ssa.Value, ps *pathState) (int64, bool) {
+	for depth := 0; depth < 8; depth++ {
+		v = ps.Resolve(v)
+		switch x := v.(type) {
+		case *ssa.Const:
+			return constInt(x)
+		case *ssa.Convert:
+			v = x.X
+			continue
+		case *ssa.ChangeType:
+			v = x.X
+			continue
+		case *ssa.BinOp:
+			a, ok1 := evalInt(x.X, ps)
+			b, ok2 := evalInt(x.Y, ps)
+			if !ok1 || !ok2 {
+				return 0, false
+			}
+			switch x.Op {
+			case token.ADD:
+				return a + b, true
+			case token.SUB:
+				return a - b, true
+			case token.MUL:
+				return a * b, true
+			case token.SHL:
+				if b >= 0 && b < 63 {
+					return a << uint(b), true
+				}
+			}
+			return 0, false
+		default:
+			return 0, false
+		}
+	}
+	return 0, false
+}
+
+// foldCond evaluates a comparison whose operands are both constant on this path.
+func foldCond(c ssa.Value, ps *pathState) (bool, bool) {
+	b, ok := c.(*ssa.BinOp)
+	if !ok {
+		return false, false
+	}
+	if _, isCmp := negOp[b.Op]; !isCmp {
+		return false, false
+	}
+	x, ok1 := evalInt(b.X, ps)
+	y, ok2 := evalInt(b.Y, ps)
+	if !ok1 || !ok2 {
+		return false, false
+	}
+	return evalCmp(x, b.Op, y), true
+}
+
+func CallEvents(p *Program) func(in ssa.Instruction, ps *pathState) (Event, bool) { return callEvents(p) }
